@@ -197,7 +197,7 @@ fn unknown_key(host: Host, src: &mut Src, used: &[Vec<u8>]) -> Value {
     let known = host.known_keys();
     for _ in 0..8 {
         let base = known[src.below(known.len())];
-        let cand: String = match src.below(10) {
+        let cand: String = match src.below(11) {
             0 => format!("{}x", base),
             1 => base[..base.len() - 1].to_string(),
             2 => {
@@ -209,6 +209,15 @@ fn unknown_key(host: Host, src: &mut Src, used: &[Vec<u8>]) -> Value {
             3 => String::new(),
             4 => base.to_uppercase(),
             5 => format!(" {}", base),
+            8 => {
+                // the known name with NUL / whitespace padding (what a C string or a trimming helper loses)
+                let pad = *src.pick(&["\0", "\0\0", "\t", "\n", "\u{a0}", "\u{200b}"]);
+                if src.bool() {
+                    format!("{}{}", base, pad)
+                } else {
+                    format!("{}{}", pad, base)
+                }
+            }
             7 => {
                 // a name that another host map knows
                 ALL_MEMBER_NAMES[src.below(ALL_MEMBER_NAMES.len())].to_string()
